@@ -26,6 +26,14 @@ CLAIMED['C02'] = dict(
          '(z3 FloatingPoint theory).',
     ref='3/C02')
 
+CLAIMED['C18'] = dict(
+    text='For every tensor shape I,J,K <= 3 and mode 0..2 with fully symbolic entries: fold(unfold(T)) = T, the unfolding equals the index-level '
+         'definition (mode-n fibres as columns, C-order over the other axes) with the documented shape, and preserves the Frobenius norm and the '
+         'entrywise moduli; rgb<->quaternion and split/stack are exact inverses (reals for all value ranges, and bit-precisely over binary64); '
+         'psnr = +inf / relative_error = 0 iff the arrays are equal, relative_error = inf iff the reference is zero; the noise routine passes '
+         'sigma^2 = ||Q||^2/(snr*size) and mean 0 to the generator and adds exactly what it draws.',
+    ref='3/C18')
+
 NOT_YET = {}
 
 NA = {
